@@ -42,6 +42,7 @@ def warm(measure_cpu: bool = True):
     corpus.warm_all(extract=True)
     _docs = corpus.corpus()
     _names = sorted(_docs)
+    _by_ext.clear()
     for n in _names:
         _by_ext.setdefault(ext_of(n), []).append(n)
     import sharepoint2text.cli  # noqa
